@@ -241,7 +241,7 @@ def _variants(dm):
 def state_cases(tier):
     mds = [('none', 'none'), ('text', 'tax'), ('num', 'slash')]
     j = 0
-    for dm in _MATS:
+    for dm in (_MATS[:4] if tier == 'quick' else _MATS):
         for lay, z in _variants(dm):
             for omd, smd in mds:
                 ids = list(rt.ID_ALPHABETS)[j % len(rt.ID_ALPHABETS)]
@@ -270,7 +270,7 @@ def history_cases(tier):
                 v = rt.view(rt.table_from_case(st))
                 al = ou.alphabet(v, 'reduced')
                 for k, a in enumerate(al):
-                    if q and k % 3:
+                    if q and k % 4:
                         continue
                     yield dict(st, prior=[a])
 
@@ -283,14 +283,14 @@ def run(rep):
         rt.install_extracted_kernels()
         q = rep.tier == 'quick'
         rt.run_scope(rep, 'states', 'every operation x full argument alphabet (inplace flag factored out: both variants '
-                     'run) x in-place operations applied to the result in two axis orders; states: 5 matrices (2x3, '
-                     '3x2, 2x2, 1x1, dense 3x3) + value-stress x layouts (csr, csr-unsorted, csc) x stored zeros '
+                     'run) x in-place operations applied to the result in two axis orders; states: matrices 2x3, '
+                     '3x2, 2x2, 1x1 (thorough: + dense 3x3) + value-stress x layouts (csr, csr-unsorted, csc) x stored zeros '
                      '(none/one/all) x metadata (none, text+taxonomy, numeric+slash) x ID alphabets x type%s'
                      % ('' if q else '; every matrix over {0,1,2} up to 2x2 x layouts x stored zeros'),
                      state_cases(rep.tier), run_state_case, chunk=2, exhaustive=True)
         rt.run_scope(rep, 'histories', 'the same contract on states reached by one prior operation of the reduced '
                      'alphabet (%s) from 2x3 (text+taxonomy metadata) and 2x2 start tables x layouts x stored zeros'
-                     % ('every 3rd' if q else 'all'), history_cases(rep.tier), run_state_case, chunk=2, exhaustive=True)
+                     % ('every 4th' if q else 'all'), history_cases(rep.tier), run_state_case, chunk=2, exhaustive=True)
         _fold(rep)
         rep.explanation = ('Bounded stand-in for C07: frame (receiver / arguments unchanged), identity of the returned '
                            'object, equivalence of in-place and non-in-place variants, and absence of show-through, '
